@@ -491,6 +491,13 @@ var mavenQuals = []string{"alpha", "beta", "milestone", "rc", "cr", "snapshot", 
 // plus bare aliases).
 func MavenConventional(t *rapid.T, l string) string {
 	s := Dotted(t, l+"n", 1, 4, atoiNum)
+	if Chance(t, l+"bigc", 1, 25) {
+		// multi-digit up to beyond 64 bits (never an all-zero long run: Maven sorts those as big numbers)
+		if strings.Count(s, ".") >= 3 {
+			s = s[:strings.LastIndex(s, ".")]
+		}
+		s += "." + Pick(t, l+"bigv", "18446744073709551616", "99999999999999999999", "100000000000000000000", "9223372036854775808", "1234567890123", "123456789012345678", "20000000000000000000")
+	}
 	sep := func(lbl string) string { return Pick(t, lbl, ".", "-") }
 	q := func() string { return MixCase(t, l+"qc", Pick(t, l+"q", mavenQuals...)) }
 	switch rapid.IntRange(0, 6).Draw(t, l+"shape") {
